@@ -249,6 +249,39 @@ fn case(out: &mut Out, class: &str, ts: u32, reference: [f64; 2], msg: &[u8], tr
     }
 }
 
+
+/// Cross-check of the two independent encoders: the Lean *Spec* builder (`build` op of the driver) must
+/// produce the very packet this file's reference encoder produces (trailer 00 00).
+fn build_case(out: &mut Out, ts: u32, f: &Fields) {
+    let line = format!(
+        "build {ts} {} {} {} {} {} {} {} {} {} {} {} {} {} {} {} {} {} {} {} {} {} {}",
+        f.addr,
+        f.is_icao as u8,
+        f.vs,
+        f.spare0 & 7,
+        f.stealth as u8,
+        f.no_track as u8,
+        (f.spare0 >> 3) & 1,
+        f.gps,
+        f.actype,
+        f.lat_e7,
+        f.alt,
+        f.lon_e7,
+        f.spare2,
+        f.factor,
+        f.ns[0],
+        f.ns[1],
+        f.ns[2],
+        f.ns[3],
+        f.ew[0],
+        f.ew[1],
+        f.ew[2],
+        f.ew[3]
+    );
+    out.case(&line, &hex(&build(ts, f, &[0, 0])));
+    out.stat("build:spec-vs-reference-encoder");
+}
+
 pub fn one(out: &mut Out, line: &str) {
     let p: Vec<&str> = line.split_whitespace().collect();
     match p.as_slice() {
@@ -263,6 +296,31 @@ pub fn one(out: &mut Out, line: &str) {
                 Some(m) => case(out, "replay", ts, [f64::from_bits(lat), f64::from_bits(lon)], &m, None),
                 None => out.notes.push(format!("bad replay line: {line}")),
             }
+        }
+        ["build", ts, rest @ ..] if rest.len() == 22 => {
+            let v: Vec<i64> = rest.iter().filter_map(|x| x.parse().ok()).collect();
+            let (Ok(ts), true) = (ts.parse::<u32>(), v.len() == 22) else {
+                out.notes.push(format!("bad replay line: {line}"));
+                return;
+            };
+            let f = Fields {
+                addr: v[0] as u32,
+                is_icao: v[1] != 0,
+                vs: v[2] as u32,
+                spare0: (v[3] as u32 & 7) | (v[6] as u32 & 1) << 3,
+                stealth: v[4] != 0,
+                no_track: v[5] != 0,
+                gps: v[7] as u32,
+                actype: v[8] as u32,
+                lat_e7: v[9] as i32,
+                alt: v[10] as u32,
+                lon_e7: v[11] as i32,
+                spare2: v[12] as u32,
+                factor: v[13] as u32,
+                ns: [v[14] as u8, v[15] as u8, v[16] as u8, v[17] as u8],
+                ew: [v[18] as u8, v[19] as u8, v[20] as u8, v[21] as u8],
+            };
+            build_case(out, ts, &f);
         }
         _ => out.notes.push(format!("bad replay line: {line}")),
     }
@@ -427,6 +485,9 @@ pub fn run(out: &mut Out, rng: &mut Rng, thorough: bool) {
         let trailer = rng.bytes(2 + extra);
         let m = build(ts, &f, &trailer);
         case(out, if i & 1 == 0 { "built:key1" } else { "built:key1b" }, ts, r, &m, Some(&f));
+        if i % 16 < 2 {
+            build_case(out, ts, &f);
+        }
     }
 
     // C. built packets cut short (the 13 trailing flag bits need two more bytes) and with a wrong header byte
